@@ -28,16 +28,16 @@ def env(maxlen):
     return e
 
 
-def line_of(fn):
-    for i, l in enumerate(open(HARNESS).read().split("\n"), 1):
+def line_of(fn, harness=None):
+    for i, l in enumerate(open(harness or HARNESS).read().split("\n"), 1):
         if l.startswith(f"def {fn}("):
             return i + 2
     raise KeyError(fn)
 
 
-def run_condition(fn, timeout, maxlen):
+def run_condition(fn, timeout, maxlen, harness=None):
     t0 = time.time()
-    cmd = [PY, "-m", "crosshair", "check", "--report_all", "--per_condition_timeout", str(timeout), f"{HARNESS}:{line_of(fn)}"]
+    cmd = [PY, "-m", "crosshair", "check", "--report_all", "--per_condition_timeout", str(timeout), f"{harness or HARNESS}:{line_of(fn, harness)}"]
     try:
         r = subprocess.run(cmd, capture_output=True, text=True, env=env(maxlen), timeout=timeout * 3 + 60)
         out = r.stdout + r.stderr
@@ -53,12 +53,12 @@ def run_condition(fn, timeout, maxlen):
     return res
 
 
-def replay_call(expr, maxlen):
+def replay_call(expr, maxlen, module="vf.ch.c19_harness"):
     """evaluate a CrossHair counterexample call in plain Python on the real code and re-check the postconditions"""
     code = f"""
 import sys, json
 sys.path.insert(0, {ROOT!r})
-import vf.ch.c19_harness as H
+import {module} as H
 from argparse import ArgumentTypeError
 fn = H.{expr.split('(')[0]}
 doc = fn.__doc__
